@@ -96,7 +96,7 @@ def shrink(c):
 
 
 # ---- command-line glue: a multi-alignment Phylip input must be treated as its alignments one by one (`detmulti`) ----
-MULTI_CMDS = [['revcomp'], ['toupper'], ['tolower'], ['unalign']]
+MULTI_CMDS = [['revcomp'], ['toupper'], ['tolower'], ['unalign'], ['revcomp', 'nope', 's1'], ['revcomp', 's1', 'ref'], ['revcomp', 'zz', 'ref', 's1']]
 
 
 def gen(rng, tier):
